@@ -40,23 +40,14 @@ def splitBar (s : String) : Option (String × String) :=
 def kvN (ws : List String) (key : String) : Nat :=
   (((ws.find? (·.startsWith (key ++ "="))).map (fun w => (w.drop (key.length + 1)).toString)).bind (·.toNat?)).getD 0
 
-/-- split a byte stream into frames with the spec's `unframe` (no length limit: the limit applies
-to what an endpoint *accepts*); returns the frames and the unconsumed rest -/
-def splitFrames : Nat → List UInt8 → List (List UInt8) → Except String (List (List UInt8) × List UInt8)
-  | 0, bs, acc => .ok (acc.reverse, bs)
-  | fuel + 1, bs, acc =>
-    match unframe 4294967295 bs with
-    | .error _ => .error "length prefix beyond u32"
-    | .ok none => .ok (acc.reverse, bs)
-    | .ok (some (f, rest)) => splitFrames fuel rest (f :: acc)
-
 /-- judge the byte stream a real `Connect::io` endpoint produced: a sequence of complete
 length-prefixed frames, first `Reset`, then `Hello` of version 3 announcing the configured chunk size,
 every further frame the canonical encoding of a v3 message, every `Data` header followed by exactly one
 payload frame not longer than the chunk size the peer announced -/
 def judgeStream (st : St) : List String × Nat :=
-  match splitFrames (st.sBytes.length + 1) st.sBytes [] with
-  | .error e => ([s!"byte stream of the real endpoint is not length-prefix framed: {e}"], 0)
+  -- no length limit here: the limit applies to what an endpoint *accepts*
+  match splitFrames 4294967295 (st.sBytes.length + 1) st.sBytes [] with
+  | .error _ => (["byte stream of the real endpoint is not length-prefix framed"], 0)
   | .ok (frames, rest) =>
     let errs : List String := if rest.isEmpty then [] else [s!"{rest.length} trailing bytes do not form a complete frame: {toHex (rest.take 12)}"]
     let errs := errs ++ (match frames with
